@@ -23,6 +23,7 @@ PROPS = {
     "C08": "harness.corr_filter",
     "C10": "harness.corr_layers",
     "C11": "harness.corr_shuffle",
+    "C20": "harness.corr_digraph",
 }
 
 TRUSTED_BASE = [
